@@ -149,6 +149,9 @@ func (p *cfgPool) yaml(f *cfgFile) string {
 			b.WriteString("  - listeners:\n")
 			for _, l := range s.Ls {
 				ty := []string{"tcp", "udp", "quic"}[l.Type]
+				if l.Type == 2 { // unsupported: an unknown type, or a known one in another letter case
+					ty = []string{"quic", "TCP", "Udp", "UDP"}[(l.Addr+len(s.Ls))%4]
+				}
 				addr := p.addrs[l.Addr]
 				if l.NotIP {
 					_, port, _ := net.SplitHostPort(addr)
@@ -620,6 +623,7 @@ func isBound(proto int, addr string) bool {
 // ---- one step's observation ----------------------------------------------------------------
 type cfgStepObs struct {
 	ErrClass int        `json:"err_class"`
+	Stage    int        `json:"refusal_expected_at_stage"` // 0: the file is a configuration the server can serve; else the stage at which it must be refused
 	Err      string     `json:"err,omitempty"`
 	Listen   []bool     `json:"listen"`
 	Auth     [][]string `json:"auth"` // per pool lkey, per probe key: "" = refused/none, else the id
@@ -844,6 +848,8 @@ func genConfig(rng *Rng, nAddrs, nLegacy int, idc *int) cfgFile {
 	return f
 }
 
+var faultTurn int64
+
 // mutate a valid configuration into one failing at a chosen stage
 func injectFault(rng *Rng, f *cfgFile, nAddrs int, idc *int, cur map[lkey]bool) {
 	ensureSvc := func() *cfgSvc {
@@ -852,7 +858,9 @@ func injectFault(rng *Rng, f *cfgFile, nAddrs int, idc *int, cur map[lkey]bool) 
 		}
 		return &f.Svcs[rng.Intn(len(f.Svcs))]
 	}
-	switch rng.Intn(8) {
+	// every kind of fault comes up in turn (a run of a dozen histories sees each several times)
+	kind := int(atomic.AddInt64(&faultTurn, 1)+int64(rng.Intn(2))) % 8
+	switch kind {
 	case 0:
 		*f = cfgFile{Kind: 1, Fault: "unreadable"}
 	case 1:
@@ -1245,7 +1253,7 @@ func runCfgHistory(ctx *Ctx, h *cfgHistory, dir string, withTraffic bool) (*cfgH
 			}
 			return out, pool, r.finds
 		}
-		so := cfgStepObs{ErrClass: classifyErr(ob.Err), Err: ob.Err, Gor: ob.Goroutines}
+		so := cfgStepObs{ErrClass: classifyErr(ob.Err), Err: ob.Err, Gor: ob.Goroutines, Stage: predicted}
 		if stopH != nil {
 			time.Sleep(60 * time.Millisecond) // keep hammering a little after the hand-over
 			close(stopH)
@@ -1355,6 +1363,11 @@ func cfgMonitors(ctx *Ctx, o *cfgHistObs, pool *cfgPool) {
 		f := &h.Files[i]
 		if so.ErrClass == 0 && f.Kind == 0 {
 			serving = pool.expectedTable(f)
+		}
+		// C10: only a configuration that can be served as a whole loads (one with a listener the
+		// server cannot run, a bad key, an address it cannot bind ... is refused, at that stage)
+		if so.ErrClass == 0 && so.Stage != 0 {
+			ctx.Monitor(fmt.Sprintf("C10/unservable-configuration-loaded:%s", f.Fault), fmt.Sprintf("step %d: a file with the fault %q (to be refused at stage %d) was reported loaded", i, f.Fault, so.Stage), o)
 		}
 		// C10: a failed step changes nothing observable
 		if so.ErrClass != 0 && prev != nil {
